@@ -96,6 +96,19 @@ CHECKS = {
     note=TRUSTED + "Hanging schedules and the chunked configuration are seeded samples of the TLC schedules. With cpus = 1 the "
          "timeout is ignored as documented. Gene finding is a stub (no prodigal). A schedule that cannot be enforced within 30 s is "
          "exit 2 (machinery), never a violation."),
+ "C06": dict(
+    text=("RecordSM.tla models the Record as a state machine (add gene / protocluster / subregion, create candidates / regions, "
+          "clear regions / subregions / candidates / protoclusters; candidates through Candidates.tla; regions as connected "
+          "components of 'areas overlap' with the connect-relation as span and an explicit sandwich for components needing half "
+          "the ring). TLC explores every history of <= 4 (quick) / 6 (thorough) calls over three universes and checks the region "
+          "invariants, absence of stale links and clear+recreate = create on the model; every model state is a behaviour that is "
+          "replayed on a real Record, and RecordSM_Trace (TLC) decides the last transition and the observed record: numbering 1..n "
+          "in location order with numbers identifying the same feature, area membership (C08 build-order half), gene -> region, "
+          "parent links. Plus seeded random universes with longer call sequences (every step validated) and thousands of random "
+          "region layouts on small rings."),
+    design="6/C06", technique="TLA+ state machine (RecordSM.tla) + TLC model checking of all short histories + behaviour replay and TLC trace validation",
+    note=TRUSTED + "create_* are only called when no candidates/regions exist (documented use). Region invariants are required where "
+         "regions were just (re)built."),
 }
 CHECKS_END = None
 NOT_BUILT = "not built yet (work in progress, see DESIGN.md section 10 build order)"
